@@ -1263,6 +1263,12 @@ def fs_coded_cases(ctx, n):
                 if r < 0.7: ops += [('clear',)] + [('copy', vg.gen(sh)) for _ in range(3)] + [('observe',)]
                 else: ops += [('mergecap', 1)] + [('copy', ctx.rng.choice(pool)) for _ in range(3)] + [('observe',)]
             cases.append((name, ops))
+            # a reservation is not a merge: reserve_regions for a trained region on a still empty (fresh or cleared)
+            # stack must not hand the stack a dictionary -- strings starting with low bytes are still accepted
+            pre = [] if ctx.rng.random() < 0.5 else [('copy', ctx.rng.choice(pool)), ('clear',)]
+            ops2 = pre + [('resregs', train[:ctx.rng.choice([3, 10, 40])]), ('observe',)] + [('copy', tagged(t)) for t in (0, 1, 2, 3)] + \
+                   [('copy', ctx.rng.choice(pool)), ('observe',)]
+            cases.append((name, ops2))
     return cases
 
 def gen_fs_cases(ctx, names, n, maxops, observe_each=True, p_serde=0.0, p_cap=0.0):
